@@ -384,7 +384,7 @@ def run_coq_cases(pid: str, stream: Stream, terms: list[str], scratch: Path):
     files = []
     for k in range(0, len(terms), stream.shard_size):
         chunk = terms[k:k + stream.shard_size]
-        f = scratch / f"cases_{stream.name}_{k // stream.shard_size}.v"
+        f = scratch / f"cases_{re.sub(r'[^A-Za-z0-9]', '_', stream.name)}_{k // stream.shard_size}.v"
         body = [
             "From Coq Require Import List ZArith String Bool.",
             "From Cylc Require Import Base.Util.",
@@ -438,7 +438,7 @@ def run_coq_cases(pid: str, stream: Stream, terms: list[str], scratch: Path):
 def show_model(stream: Stream, term: str, scratch: Path) -> str:
     if not stream.show_fn:
         return ""
-    f = scratch / f"show_{stream.name}.v"
+    f = scratch / f"show_{re.sub(r'[^A-Za-z0-9]', '_', stream.name)}.v"
     f.write_text("\n".join([
         "From Coq Require Import List ZArith String Bool.",
         "From Cylc Require Import Base.Util.",
